@@ -641,4 +641,6 @@ func TestC10(t *testing.T) {
 	h.Run(c, "nilmap", c.N(6000, 60000), genNilMap, oracleNilMap)
 	c.Rule("reentrant: the index or a bound of an index / 2- / 3-index slice expression on a slot (element of a [][]int64, struct field, element of an untyped list, plain variable) is computed by a function that replaces that slot on the way (shrinks it in place, swaps in a fresh shorter / empty / longer list); the result must be what Go's operation gives on the container as it was or on the replaced one, or an error - never a Go panic, never other elements; all cases non-trivial")
 	h.Run(c, "reentrant", c.N(6000, 60000), genReentrant, oracleReentrant)
+	c.Rule("basictypes: one container over each basic type name T of {bool,string,int,int32,int64,uint,uint32,uint64,byte,rune,float32,float64,interface}: make([]T,n,c), []T{..}, make(map[string]T), map[string]T{..}, make(map[T]string), make(struct{A T, B T2}), make([][]T,2), then 2-7 statements (element / key / field store, store at len, += x, + [..], row store, reads, len) with operands from int64 / float64 / string / bool / nil literals and elements of typed literals of every other basic type; after every statement the value fetched with env.Get has exactly Go's type of the declared spelling and the contents Go's conversion T(x) gives (reflect.Convert), a store Go has no conversion for fails and changes nothing; not executed (counted bt:open:*): float operands whose truncation does not fit the integer target or that exceed float32, strings of at most one character into byte / rune; non-trivial = at least one store that converted between two different Go types or was refused; distinct by source text")
+	h.Run(c, "basictypes", c.N(4000, 40000), genBasicTypes, oracleBasicTypes)
 }
